@@ -6,6 +6,26 @@ import (
 
 func init() {
 	register("C20", runC20)
+	c20a = runC20a
+}
+
+// runC20a runs the front-end agreement test (Engine T) and merges its numbers into ev.
+func runC20a(r *Run, ev map[string]any) error {
+	spec := &TSpec{ID: "C20", Test: "TestC20a", Checks: [2]int{6000, 100000}, Shards: [2]int{16, 16}}
+	sub := *r
+	sum, err := runTRaw(&sub, spec)
+	r.violations = append(r.violations, sub.violations...)
+	r.known = append(r.known, sub.known...)
+	r.infra = append(r.infra, sub.infra...)
+	if err != nil {
+		return err
+	}
+	ev["a_evaluations"] = sum.Evaluations
+	ev["a_nontrivial"] = sum.Nontrivial
+	ev["a_class_distribution"] = sum.Tags
+	ev["samples"] = sum.Samples
+	ev["a_rule"] = "grammars of the bootstrap subset (profile bootsub: no recovery/throw, no code predicates or state blocks, code blocks with balanced braces, no comments, rule bodies on one line, rules ended by newline, identifiers outside the reserved words) drawn by rapid and spelled with drawn quotings/escapes/class forms/definition operators; relation: bootstrap.Parser.Parse and the generated front-end (ParseReader) build structurally identical ASTs (rules, expression tree, literal values, labels, code blocks; positions and display-name quoting aside); a grammar both refuse is outside the subset, a grammar only one of them refuses is a violation. Non-trivial = >=3 node kinds."
+	return nil
 }
 
 // c20a is set by the tool engine (front-end agreement on the bootstrap subset).
